@@ -1,2 +1,40 @@
-(* C17 — structure values. (theorems added by Proofs/ValueProps.v) *)
-From VF Require Import Model.Writer Gen.GeneratedOk.
+(* C17 — structure values: local assignment. *)
+From VF Require Import Model.Writer Proofs.SizeProps Proofs.RoundTrip Proofs.ValueRoundTrip Proofs.AssignProps Gen.GeneratedOk.
+Open Scope string_scope. Open Scope list_scope. Open Scope Z_scope.
+
+(* __eq__ / __hash__ / __bool__ / __init__ are Python methods generated per field count and patched with the field names; they are
+   not modelled (DESIGN.md 10.2) and are decided by the oracle over many classes sharing a field count.  What is proved is the
+   byte-level clause: for every packed structure of plain fields fs1 ++ f :: fs2 with distinct names whose field values dump to their
+   declared sizes (`sized`: true of all typed values, see typed_values_have_declared_size), assigning f changes, in the dumped
+   bytes, exactly the bytes of f: the dump before is a ++ old ++ b, the dump after is a ++ new ++ b, with |old| = |new| = sizeof(f). *)
+Theorem assign_changes_only_that_field : forall c nm fs1 f fs2 vals sz sz' x wpos bs bs' n,
+  let fs := fs1 ++ f :: fs2 in
+  let vals' := set_field (f_name f) x vals in
+  Forall (fun g => f_bits g = None /\ f_off g = None) fs -> NoDup (map f_name fs) ->
+  Forall (fun g => sized c (fun g => write_ty c (f_ty g)) vals g /\ sized c (fun g => write_ty c (f_ty g)) vals' g) fs ->
+  ty_size c (f_ty f) = Some n ->
+  write_ty c (TStruct nm fs false) (VStruct vals sz) wpos = Ok bs ->
+  write_ty c (TStruct nm fs false) (VStruct vals' sz') wpos = Ok bs' ->
+  exists a old new b, bs = a ++ old ++ b /\ bs' = a ++ new ++ b /\ zlen old = n /\ zlen new = n.
+Proof. exact assign_is_local. Qed.
+Theorem typed_values_have_declared_size : forall c, endian_ok (c_endian c) -> forall t, flat t = true -> rt_ty c t = true ->
+  forall v wpos bs n, has_ty c t v -> write_ty c t v wpos = Ok bs -> ty_size c t = Some n -> zlen bs = n.
+Proof. exact typed_write_has_size. Qed.
+(* the dump of such a structure is the concatenation of its fields' dumps *)
+Theorem struct_dump_is_concatenation : forall c (W : field -> wfn) vals wstart fs, Forall (fun f => f_bits f = None /\ sized c W vals f) fs ->
+  forall off offs, offs_agree c off fs offs -> forall out, (forall x, off = Some x -> zlen out = x) ->
+  wstruct_loop c false wstart vals (map (fun f => (wmeta_of c f, W f)) fs) offs out wb_empty
+  = do chs <- chunks_of W vals wstart fs (zlen out); Ok (out ++ List.concat chs, wb_empty).
+Proof. exact wloop_is_chunks. Qed.
+
+Print Assumptions assign_changes_only_that_field.
+Print Assumptions typed_values_have_declared_size.
+
+Definition ex_cfg := mkCfg "<" (PInt 8 false true) 8 [] [].
+Definition fa := Fld "a" false (TPrim (PInt 1 false true) 1) None None.
+Definition fb := Fld "b" false (TPrim (PInt 2 false true) 2) None None.
+Definition fc := Fld "c" false (TArr (TPrim PChar 1) (LFixed 2)) None None.
+Example ex_assign : let t := TStruct "s" [fa; fb; fc] false in
+  dumps ex_cfg t (VStruct [("a", VInt 1); ("b", VInt 2); ("c", VBytes [104; 105])] []) = Ok [1; 2; 0; 104; 105] /\
+  dumps ex_cfg t (VStruct (set_field "b" (VInt 772) [("a", VInt 1); ("b", VInt 2); ("c", VBytes [104; 105])]) []) = Ok [1; 4; 3; 104; 105].
+Proof. vm_compute. split; reflexivity. Qed.
